@@ -13,8 +13,10 @@ def write(prop, tier, seed, level, coverage, wall_s, violations, assumptions=Non
     cov.setdefault('samples', [])
     ev = {'property_id': prop, 'tier': tier, 'seed': int(seed), 'level': level, 'coverage': cov,
           'wall_s': round(float(wall_s), 2), 'violations': int(violations), 'assumptions': assumptions or []}
-    os.makedirs(os.path.join(VERIF, 'evidence'), exist_ok=True)
-    path = os.path.join(VERIF, 'evidence', prop + '.json')
+    # runs against another source tree (VERIF_REPO: mutant trials) must not overwrite the evidence of /repo
+    sub = 'evidence' if os.path.realpath(os.environ.get('VERIF_REPO', '/repo')) == '/repo' else os.path.join('.work', 'evidence-alt')
+    os.makedirs(os.path.join(VERIF, sub), exist_ok=True)
+    path = os.path.join(VERIF, sub, prop + '.json')
     tmp = path + '.tmp'
     with open(tmp, 'w') as f:
         json.dump(ev, f, indent=1, sort_keys=True, default=str)
